@@ -195,6 +195,18 @@ def run_unit(u):
                 rep.inconclusive += 1; rep.notes.append(label + "memory-model alarm for c in [%d,%d] not reproduced natively: %s (%s)" % (lo, hi, payload, detail))
             continue
         nb = payload['nblobs']
+        if entry == 'c_api' and u.get('restart', True) and (j >= 1 or lo >= total - 40):
+            # restart-and-append from the last exposed snapshot, at solver-derived representatives of this path's offset range
+            for cv in sorted({lo, hi}):
+                try:
+                    res = restart_check(cfgname, n, hist, j, cv, ws, records, tab)
+                except MemError as e:
+                    res = "restart: memory-model violation %s" % e
+                rep.obligations += 1
+                if not res: rep.discharged += 1; continue
+                okn, detail = native_restart(cfgname, n, hist, j, cv); rep.replays += 1
+                if okn: rep.violations.append(dict(key='C07:restart:write%d' % min(j, 1), what=res + "; " + detail, replay=dict(cfg=cfgname, n=n, hist=hist, j=j, c=cv, entry=entry, kind='restart'), obligation=label))
+                else: rep.inconclusive += 1; rep.notes.append(label + "restart alarm not reproduced natively: %s (%s)" % (res, detail))
         if rep.paths % 8 == 1:
             # translator validation / reachability witness: the native reader on the crash image for c = lo agrees with the engine
             okn, detail, _ = native_crash(cfgname, n, hist, j, lo, entry); rep.replays += 1; rep.witnesses += 1
@@ -218,6 +230,93 @@ def run_unit(u):
         a_ = int(lo_ * total) if isinstance(lo_, float) else lo_; b_ = int(hi_ * total) if isinstance(hi_, float) else hi_
         ob.prove("explored path conditions cover every crash offset %d..%d" % (a_, b_), z3.Or(*covered), [z3.UGE(c, a_), z3.ULE(c, b_), z3.ULE(c, total)], domain='BV64')
     return rep
+
+def restart_check(cfgname, n, hist, j, cv, ws, records, tab):
+    """engine, concrete: crash image at stream byte cv of write j -> open -> restart from the last exposed snapshot -> redo the
+    remaining segments of the history, appending to the crash image -> the final archive must equal the uninterrupted one"""
+    dom = UF(); I = new_interp(dom, P.StrictCtx()); I.concrete_env = True
+    I.mem.on_uninit = 'zero'; I.loop_bound = 400000
+    crash_image(I, ws[j], cv)
+    fn = I.cstr('crash.bin')
+    p = I.call('@reb_simulationarchive_create_from_file', [fn])
+    if p == NULL: return None
+    sa = SimView(I, p, 'reb_simulationarchive'); nb = sa.get('nblobs')
+    if nb == 0: return None
+    r = I.call('@reb_simulation_create_from_simulationarchive', [p, nb - 1])
+    I.call('@reb_simulationarchive_free', [p])
+    if r == NULL: return "restart: last exposed snapshot %d does not load" % (nb - 1)
+    sim = Sim(I, r)
+    for seg in hist[nb:]:
+        for op in seg: c06.op_engine(I, sim, op)
+        P.save(I, sim, 'crash.bin')
+    p2 = I.call('@reb_simulationarchive_create_from_file', [fn])
+    if p2 == NULL: return "restart: archive does not open after appending"
+    sa2 = SimView(I, p2, 'reb_simulationarchive')
+    if sa2.get('nblobs') != len(hist): return "restart from snapshot %d after a crash at stream byte %d of write %d: archive has %d snapshots instead of %d" % (nb - 1, cv, j, sa2.get('nblobs'), len(hist))
+    for k in range(len(hist)):
+        r2 = I.call('@reb_simulation_create_from_simulationarchive', [p2, k])
+        if r2 == NULL: return "restart: snapshot %d does not load" % k
+        s2 = Sim(I, r2)
+        got = P.read_locations(I, s2, P.locations(I, s2, tab, []))
+        for lab, val in records[k].items():
+            if lab.startswith('walltime') or lab.startswith('count:'): continue
+            g = got.get(lab)
+            if isinstance(g, float): g = f2bits(g)
+            if g != val: return "restart from snapshot %d after a crash at stream byte %d of write %d: snapshot %d differs from the uninterrupted run in %s" % (nb - 1, cv, j, k, lab)
+    return False
+
+def native_restart(cfgname, n, hist, j, cv):
+    """the same natively with real files (crash-isolated)"""
+    try:
+        return isolated(_native_restart, cfgname, n, hist, j, cv)
+    except NativeCrash as e:
+        return True, "native restart crashed with signal %s" % e.sig
+
+def _native_restart(cfgname, n, hist, j, cv):
+    N = Native(); lib = N.lib
+    d = tempfile.mkdtemp(prefix='llsym_c07r_')
+    try:
+        fn = os.path.join(d, 'arch.bin'); ref = os.path.join(d, 'ref.bin')
+        sv = lib.reb_simulation_save_to_file; sv.argtypes = [ctypes.c_void_p, ctypes.c_char_p]; sv.restype = None
+        ns = P.build_native_state(N, P.CONFIGS[cfgname], n)
+        pre = post = b''
+        for k, seg in enumerate(hist):
+            for op in seg: c06.op_native(N, ns, op)
+            if k == j: pre = open(ref, 'rb').read() if os.path.exists(ref) else b''
+            sv(ns.addr, ref.encode())
+            if k == j: post = open(ref, 'rb').read()
+        ns.free()
+        img = bytearray(pre)
+        if j == 0: img = bytearray(post[:cv])
+        else:
+            patch_at = len(pre) - 12
+            for i in range(12):
+                if cv > i: img[patch_at + i] = post[patch_at + i]
+            if cv > 12: img += post[len(pre):len(pre) + (cv - 12)]
+        open(fn, 'wb').write(bytes(img))
+        op_sa = lib.reb_simulationarchive_create_from_file; op_sa.argtypes = [ctypes.c_char_p]; op_sa.restype = ctypes.c_void_p
+        lib.reb_simulationarchive_free.argtypes = [ctypes.c_void_p]
+        sa = op_sa(fn.encode())
+        if not sa: return False, "no snapshot to restart from"
+        nb = ctypes.c_int64.from_address(sa + N.L.off('reb_simulationarchive', 'nblobs')).value
+        ld = lib.reb_simulation_create_from_simulationarchive; ld.argtypes = [ctypes.c_void_p, ctypes.c_int64]; ld.restype = ctypes.c_void_p
+        if nb == 0: return False, "no snapshot to restart from"
+        r = ld(sa, nb - 1); lib.reb_simulationarchive_free(sa)
+        rs = NSim(N, r)
+        for seg in hist[nb:]:
+            for op in seg: c06.op_native(N, rs, op)
+            sv(rs.addr, fn.encode())
+        rs.free()
+        cf = lib.reb_simulation_create_from_file; cf.argtypes = [ctypes.c_char_p, ctypes.c_int64]; cf.restype = ctypes.c_void_p
+        df = lib.reb_simulation_diff; df.argtypes = [ctypes.c_void_p, ctypes.c_void_p, ctypes.c_int]; df.restype = ctypes.c_int
+        sa = op_sa(fn.encode()); nb2 = ctypes.c_int64.from_address(sa + N.L.off('reb_simulationarchive', 'nblobs')).value if sa else 0
+        if nb2 != len(hist): return True, "native: after restarting from snapshot %d (crash at stream byte %d of write %d) and re-appending, the archive has %d snapshots instead of %d" % (nb - 1, cv, j, nb2, len(hist))
+        for k in range(len(hist)):
+            a = cf(fn.encode(), k); b = cf(ref.encode(), k)
+            if not a or not b or df(a, b, 2): return True, "native: snapshot %d of the restarted archive differs from the uninterrupted archive" % k
+        return False, "native restart reproduces the uninterrupted archive"
+    finally:
+        shutil.rmtree(d, ignore_errors=True)
 
 def c_range(pc, c, total):
     s = z3.Solver(); s.set('timeout', 5000)
@@ -305,6 +404,7 @@ def native_crash(cfgname, n, hist, j, cv, entry):
         shutil.rmtree(d, ignore_errors=True)
 
 def replay(data):
+    if data.get('kind') == 'restart': return native_restart(data['cfg'], data['n'], data['hist'], data['j'], int(data['c']))
     return native_crash(data['cfg'], data['n'], data['hist'], data['j'], int(data['c']), data['entry'])[:2]
 
 def main():
@@ -326,7 +426,7 @@ def main():
         bounds=dict(archives=len(archs), snapshots='2..3', particles=2, crash_points='every byte offset of every write (symbolic)', entry_points=['reb_simulationarchive_create_from_file', 'reb_simulationarchive_create_from_file_with_messages on a caller-owned struct']),
         assumptions=['bytes reach the file in program order and a crash leaves a prefix of the write stream (no reordering, no torn sectors)', 'malloc never fails',
                      'a snapshot whose payload and END field are complete but whose trailer is cut may or may not be exposed (the property does not say)'],
-        outside=['restart-and-append on the crash image (repair path of the writer) and repeated crash/restart cycles', 'archives with more than 3 snapshots', 'walltime fields'],
+        outside=['restart-and-append is checked only at the end points of every offset range the reader distinguishes (solver-derived representatives), for crashes during appends, one crash cycle', 'archives with more than 3 snapshots', 'walltime fields'],
         domain_note='BV64 crash offset; file contents concrete; patched trailer bytes are ite-terms in the offset')
     sys.exit(code)
 
